@@ -286,3 +286,14 @@ func (r *Report) Finish(t fataler) {
 		t.Fatalf("vreport: rename: %v", err)
 	}
 }
+
+// Violations returns (fingerprint, detail) pairs recorded so far (used by harnesses that check in a scratch report).
+func (r *Report) Violations() [][2]string {
+	r.mu.Lock()
+	defer r.mu.Unlock()
+	out := make([][2]string, 0, len(r.violations))
+	for _, v := range r.violations {
+		out = append(out, [2]string{v.Fingerprint, v.Detail})
+	}
+	return out
+}
